@@ -169,7 +169,12 @@ func solveAll(obligs []*Oblig, outDir string, sec int, agree bool) {
 			file := filepath.Join(outDir, fmt.Sprintf("o%04d.smt2", i))
 			os.WriteFile(file, []byte(ob.SMT+"(get-model)\n"), 0o644)
 			tmp := &Oblig{}
-			solveOne(tmp, file, sec, agree)
+			osec, oagree := sec, agree
+			if ob.Canary {
+				// a contradiction shows up as a fast unsat; anything else means "reachable"
+				osec, oagree = 3, false
+			}
+			solveOne(tmp, file, osec, oagree)
 			mu.Lock()
 			ob.Solver, ob.TimeMs, ob.Model, ob.Output = tmp.Solver, tmp.TimeMs, tmp.Model, tmp.Output
 			ob.Result = tmp.Result
